@@ -191,8 +191,8 @@ def impl_history(case):
                         mc.merge_json_union(p, q, bool(op[1]))
                     elif op[0] == "upgrade":
                         vp = os.path.join(d, "assets_version")
-                        with open(vp, "w") as f:
-                            f.write("v0.0.0-old")
+                        with open(vp, "w") as f:   # the version stamp of the (older) evo that wrote the settings folder
+                            f.write(op[1] if len(op) > 1 else "v0.0.0-old")
                         saved = (settings.DEFAULT_PATH, settings.USER_ASSETS_VERSION_PATH)
                         settings.DEFAULT_PATH, settings.USER_ASSETS_VERSION_PATH = Path(p), Path(vp)
                         try:
@@ -554,7 +554,10 @@ def judge_history(case, val, out):
         if st["leftovers"]:
             return {"kind": "spec-violation", "failing_input": True, "detail": "scratch files left behind: %r" % st["leftovers"]}
         if st["raised"] and op[0] != "set":
-            return {"kind": "spec-violation", "failing_input": True, "detail": "operation %d (%s) raised %s" % (i, op[0], st["raised"])}
+            more = _doc_spec(case, prev, st["doc"], op, st["raised"])
+            return {"kind": "spec-violation", "failing_input": True,
+                    "detail": "operation %d (%s%s) raised %s%s" % (i, op[0], " from a settings folder stamped " + op[1] if op[0] == "upgrade" and len(op) > 1 else "",
+                                                                     st["raised"], "; " + more if more else "")}
         sp = _doc_spec(case, prev, st["doc"], op, st["raised"])
         if sp:
             return {"kind": "spec-violation", "failing_input": True, "detail": "operation %d (%s): %s" % (i, op[0], sp)}
@@ -754,6 +757,67 @@ def random_doc(rng, keys, dflt):
     return doc
 
 
+RELEASES = ["v0.1", "v0.9.9", "v1.0.0", "v1.1.0", "v1.2.3", "v1.3.0", "v1.4.0", "v1.5.1", "v1.5.6", "v1.6.1", "v1.7.0", "v1.7.1",
+            "v1.8.0", "v1.9.0", "v1.9.2", "v1.10.0", "v1.12.0", "v1.13.5", "v1.20.0", "v1.25.2", "v1.28.0", "v1.30.4", "v1.31.0"]
+
+
+def _vtuple(v):
+    import re
+    m = re.fullmatch(r"v(\d+)\.(\d+)(?:\.(\d+))?", v)
+    return None if m is None else tuple(int(x or 0) for x in m.groups())
+
+
+def _running_version():
+    from evo.tools import settings
+    return settings.__version__
+
+
+def older_versions():
+    """version stamps of evo releases that are OLDER than the running package version (numerically), incl. the ones that
+    sort after it as strings (v1.9.0 vs v1.31.1) and, generically, every single-digit minor/patch below the current one"""
+    from evo.tools import settings
+    cur = _vtuple(settings.__version__)
+    if cur is None:
+        return ["v0.0.0-old"] + RELEASES[:4]
+    cands = list(RELEASES)
+    cands += ["v%d.%d.0" % (cur[0], m) for m in range(0, min(cur[1], 10))]
+    cands += ["v%d.%d.%d" % (cur[0], cur[1], q) for q in range(0, min(cur[2], 10))]
+    if cur[0] > 0:
+        cands += ["v%d.%d.%d" % (cur[0] - 1, m, q) for m, q in ((9, 9), (99, 0), (5, 12))]
+    out = []
+    for v in cands:
+        t = _vtuple(v)
+        if t is not None and t < cur and v not in out:
+            out.append(v)
+    return out
+
+
+def old_version_upgrade_cases(ctx):
+    """a version upgrade from a settings folder stamped by an older evo release (real release numbers, also those that sort
+    after the running version as strings) whose settings file lacks some of today's keys and holds user-set values"""
+    rng = ctx.np_rng(26)
+    dflt = defaults()
+    keys = sorted(dflt)
+    stamps = older_versions()
+    cs = []
+    for i in range(max(ctx.n(40, 300), len(stamps))):
+        stamp = stamps[i % len(stamps)]
+        doc = random_doc(rng, keys, dflt)
+        for k in rng.choice(keys, int(rng.integers(1, 6)), replace=False):
+            doc.pop(str(k), None)
+        if i % 5 == 0:
+            doc["user_only"] = 1
+        ops = [["upgrade", stamp]]
+        if i % 3 == 1:
+            ops.insert(0, ["set", [str(rng.choice(sorted(doc) or keys)), str(rng.choice(VALUE_TOKENS))]])
+        if i % 3 == 2:
+            ops.append(["set", random_set_args(rng, keys)])
+        if i % 7 == 6:
+            ops.append(["upgrade", stamps[(i * 5 + 3) % len(stamps)]])
+        cs.append({"kind": "history", "init": tag_dict(doc), "ops": ops})
+    return cs
+
+
 def history_cases(ctx):
     rng = ctx.np_rng(21)
     dflt = defaults()
@@ -927,6 +991,8 @@ def corpus():
         {"kind": "history", "init": tag_dict({"plot_split": True, "user_only": 1}), "ops": [["upgrade"], ["set", ["user_only", "2"]],
                                                                                              ["merge", True, tag_dict({"plot_split": False, "plot_usetex": True})],
                                                                                              ["merge", False, tag_dict({"plot_split": False})]]},
+        # a settings folder last written by evo v1.9.0 (sorts after v1.31.1 as a string, is older as a version)
+        {"kind": "history", "init": tag_dict({"plot_split": True, "user_only": 1}), "ops": [["upgrade", "v1.9.0"]]},
         {"kind": "container", "data": tag_dict({"a": 1, "b": True}), "ops": [["set", "c", tag(5)], ["set", "a", tag(7)], ["upd", tag_dict({"a": 9, "zz": 1})],
                                                                               ["get", "zz"], ["get", "a"]]},
         {"kind": "container", "data": tag_dict({"a": 1}), "ops": [["upd", tag_dict({"__locked__": False})], ["set", "new", tag(1)]]},
@@ -972,7 +1038,7 @@ def run(ctx, replay=None, proofs_ok=True):
         if not cases or not proofs_ok:
             cases = cases + corpus()
     else:
-        cases = corpus() + history_cases(ctx) + empty_token_cases(ctx) + container_cases(ctx) + mergecfg_cases(ctx) + generate_cases(ctx) + e2e_cases(ctx)
+        cases = corpus() + history_cases(ctx) + old_version_upgrade_cases(ctx) + empty_token_cases(ctx) + container_cases(ctx) + mergecfg_cases(ctx) + generate_cases(ctx) + e2e_cases(ctx)
     failures, stats = differential(ctx, cases, imports=IMPORTS, impl=impl, expr=expr, judge=judge, shrink=shrink,
                                    nontrivial=nontrivial, per_file=20)
     hist = {}
@@ -980,6 +1046,9 @@ def run(ctx, replay=None, proofs_ok=True):
         if c["kind"] == "history":
             for op in c["ops"]:
                 b = "history op:" + op[0] + (":soft" if op[0] == "merge" and op[1] else "")
+                if op[0] == "upgrade" and len(op) > 1:
+                    b += ":from an older release stamp" + (" that sorts after the running version as a string"
+                                                           if op[1] >= _running_version() else "")
                 hist[b] = hist.get(b, 0) + 1
             b = "history:init=%s,ops=%d" % ("defaults" if c["init"] == "defaults" else "user document", len(c["ops"]))
         elif c["kind"] == "generate":
@@ -999,6 +1068,8 @@ def run(ctx, replay=None, proofs_ok=True):
                    "histories of 1..6 set/reset/merge(soft,hard)/upgrade operations over the %d settings keys on scratch files "
                    "(tokens: keys, unknown keys, true/false spellings, ints, floats, nan/inf, palette names, list words), "
                    "set <parameter> none|None|[] for every non-boolean parameter (string parameters keep a string), "
+                   "version upgrades from settings folders stamped by older evo releases (v0.1 .. v1.31.0, incl. single-digit "
+                   "minors that sort after the running version as strings) whose file lacks some of today's keys, "
                    "document compared after every operation + SettingsContainer assignment/update/get sequences + merge_config "
                    "(namespace, SETTINGS, settings file bytes) + generate on argument lists drawn from the introspected option "
                    "tables of evo_ape/evo_rpe/evo_traj (flags, str with choices, int, float incl. negative and integral spellings, "
